@@ -9,6 +9,8 @@ Driver for C09: `Uniflow.Runtime.step` over the line protocol.
   iv <id> <ns> <name|-> <ver>                      → ok | dup
   uv <id> <ns> <name|-> <ver>                      → ok | nf | bad
   dv <id>                                          → ok | nf
+  bis <n> (<0|1> <spec as in is>)^n                → ok | dup | bad   (one Insert of n specs; 0 = refused by the segment: no id / unique index)
+  biv <n> (<0|1> <id> <ns> <name|-> <ver>)^n       → ok | dup | bad   (one Insert of n values)
   load all | load ids <k> <i1> … <ik>              → <obs>     (log since the previous observation)
   cs | cv                                          → <obs>     (consume one spec / value event)
   drain                                            → T <table> (consume every pending event)
@@ -99,6 +101,30 @@ def parseVal : List String → Option Value
     | _, _, _, _ => none
   | _ => none
 
+def parseAcc (t : String) : Option Bool :=
+  if t = "1" then some true else if t = "0" then some false else none
+
+/-- `<acc> <spec>` repeated `n` times (a spec's token count follows from its env count). -/
+def parseSpecBatch : Nat → List String → Option (List (Spec × Bool))
+  | 0, [] => some []
+  | n + 1, acc :: id :: ns :: name :: kind :: ver :: k :: rest =>
+    match k.toNat? with
+    | some kn =>
+      match parseAcc acc, parseSpec (id :: ns :: name :: kind :: ver :: k :: rest.take (3 * kn)),
+        parseSpecBatch n (rest.drop (3 * kn)) with
+      | some a, some s, some l => some ((s, a) :: l)
+      | _, _, _ => none
+    | none => none
+  | _, _ => none
+
+def parseValBatch : Nat → List String → Option (List (Value × Bool))
+  | 0, [] => some []
+  | n + 1, acc :: id :: ns :: name :: ver :: rest =>
+    match parseAcc acc, parseVal [id, ns, name, ver], parseValBatch n rest with
+    | some a, some v, some l => some ((v, a) :: l)
+    | _, _, _ => none
+  | _, _ => none
+
 def parseFilter : List String → Option Filter
   | ["all"] => some .all
   | "ids" :: k :: is =>
@@ -150,6 +176,18 @@ def stepLine (st : St) (toks : List String) : St × String :=
   | ["cv"] =>
     let st' := (step { st with log := [] } .consumeVal).1
     (st', showObs false st')
+  | "bis" :: n :: r =>
+    match n.toNat? with
+    | some n => match parseSpecBatch n r with
+      | some l => let (st', o) := insSpecs st l; (st', showOut o)
+      | none => (st, "bad-op")
+    | none => (st, "bad-op")
+  | "biv" :: n :: r =>
+    match n.toNat? with
+    | some n => match parseValBatch n r with
+      | some l => let (st', o) := insVals st l; (st', showOut o)
+      | none => (st, "bad-op")
+    | none => (st, "bad-op")
   | ["close"] =>
     let st' := closeRt { st with log := [] }
     (st', showObs false st')
